@@ -23,7 +23,9 @@ SPEC = {
                    "Read/ReadFile scenarios: two file values (two processes) on the week's counter file opened by the real "
                    "rotate1; A adds counters, B adds counters (75%: long names that extend the file beyond A's mapping), A "
                    "adds again; after each phase counter.Read through A for its own counters, counters only B created and a "
-                   "name nobody created, and counter.ReadFile, with the file as it is on disk. "
+                   "name nobody created, and counter.ReadFile, with the file as it is on disk; then a batch of 40-60 reads with the "
+                   "number of mappings of the file (/proc/self/maps) and of open descriptors (/proc/self/fd) before and after "
+                   "(oracles read-leaves-mapping / read-leaves-descriptor: reading leaves no process state behind). "
                    "distinct = distinct case lines; every case compares the answer with the model and evaluates the "
                    "totality / faithfulness / soundness / determinism oracles"),
     ],
